@@ -251,3 +251,16 @@ write("C15", [run("parse-lines", AUD, "VerifC15ParseLines", {"params": {"K": 3, 
        "no time passes between clock readings inside one run (CLOCKSTEP=0): reassembly time-outs are outside the claim"],
       ["errors produced inside ReassemblyComplete (needs aucoalesce)", "reassembly time-outs and more than 8 events in flight"], site_prefix="c15.",
       init_extra=["github.com/elastic/go-libaudit/v2/auparse", "github.com/elastic/go-libaudit/v2"])
+
+# ---- C08
+CMD = M + "/cmd"
+causes = ["sshd-pipe-eof", "audit-pipe-eof", "unparsable-audit-line", "sshd-path-not-a-pipe", "audit-path-not-a-pipe", "signal-while-idle", "signal-after-traffic"]
+write("C08", [run(nm, CMD, "VerifC08FailStop", {"params": {"CAUSE": i}, "preempt": -2, "max_steps": 30000000}, {"params": {"CAUSE": i}, "preempt": 0, "max_steps": 60000000}, reach=["c08.returned"],
+                  bounds="real cmd.RunNamedPipe with both pipes as FIFO models; failure cause: " + nm.replace("-", " "))
+              for i, nm in enumerate(causes)],
+      ["the daemon function RunNamedPipe is executed from its real source (flag parsing, worker wiring, errgroup); main()'s mapping of a non-nil error to exit status 1 (log.Fatalln) and the SIGTERM/SIGINT -> context cancellation of signal.NotifyContext are read from main.go, not executed",
+       "stubs: zap logger construction (nop logger), zapr, the events output file (a write sink; helpers.OpenAuditLogFileUntilSuccessWithContext), /etc/machine-id, os.Hostname, os.Stat for the model's paths, prometheus, json.Encoder (one Write per event), FIFO model, time tickers",
+       "'exits within a bounded time' is decided as: in every explored schedule RunNamedPipe returns (no goroutine it waits for stays blocked)",
+       "failure under a saturated audit stream is decided at worker level in C13 (audit ingester blocked on a full channel); filling the 10000-slot channel through the pipe is outside this check"],
+      ["the built binary, real signals, kernel FIFO semantics, exit status as seen by a parent process", "write failures of the events file (decided at processor level in C05)", "the optional HTTP/metrics goroutines (flags off)"], site_prefix="c08.",
+      init_extra=["github.com/elastic/go-libaudit/v2/auparse", "github.com/elastic/go-libaudit/v2"])
